@@ -33,12 +33,13 @@ def flt(x):
 
 
 def qc(n, ops, cregs=(), md=None, qregs=None):
-    """ops: [(name, [qubits])] or [(name,[qubits],[clbits])]"""
+    """ops: [(name, [qubits])] or [(name,[qubits],[clbits])] or [(name,[qubits],[clbits],[float params])]"""
     o = []
     for g in ops:
         name, qs = g[0], list(g[1])
         cs = list(g[2]) if len(g) > 2 else []
-        o.append([name, [], qs, cs])
+        ps = [flt(x) for x in g[3]] if len(g) > 3 else []
+        o.append([name, ps, qs, cs])
     return {"t": "qc", "nq": n, "nc": sum(s for _, s in cregs),
             "qregs": [list(x) for x in (qregs or [["q", n]])],
             "cregs": [list(x) for x in cregs], "gp": flt(0.0), "ops": o,
@@ -155,11 +156,27 @@ def pauli_strings(R, S, ph, sign_style=0):
     return out
 
 
-def random_clifford_ops(rng, n, length, non_clifford=False):
+HALF_PI = 1.5707963267948966
+
+
+def random_clifford_ops(rng, n, length, non_clifford=False, extended=False):
+    """extended: also Clifford gates outside the documented list that the library nevertheless accepts -
+    sx, sxdg, cy and the parameterised rz / p at multiples of pi/2"""
     ops = []
     one = ["h", "s", "sdg", "x", "y", "z", "id"]
     two = ["cx", "cz", "swap"]
     for _ in range(length):
+        if extended and rng.random() < 0.3:
+            q = rng.randrange(n)
+            g = rng.choice(["rz", "p", "sx", "sxdg", "cy"])
+            if g in ("rz", "p"):
+                ops.append((g, [q], [], [HALF_PI * rng.randrange(4)]))
+            elif g == "cy" and n >= 2:
+                a, b = rng.sample(range(n), 2)
+                ops.append((g, [a, b]))
+            elif g != "cy":
+                ops.append((g, [q]))
+            continue
         if n >= 2 and rng.random() < 0.4:
             a, b = rng.sample(range(n), 2)
             ops.append((rng.choice(two), [a, b]))
